@@ -4,7 +4,8 @@
    Interpretation recorded in DESIGN.md: "returned nil / an error" means RECORDED as the exit of the current
    instance by its bookkeeping section (an instance superseded between returning and recording is treated as
    cancelled and its result dropped; the pinned suite relies on this). *)
-From Util Require Import Common.Base Common.ListLemmas Routine.Model Routine.Proofs Routine.ProofsC14 Routine.ProofsC14b Routine.Spec Routine.Sweep.
+From Util Require Import Common.Base Common.ListLemmas Routine.Model Routine.Proofs Routine.ProofsC14 Routine.ProofsC14b Routine.Spec Routine.Sweep
+  Routine.ProofsMon.
 Close Scope N_scope.
 
 (* nothing but API calls and retry-timer callbacks can start an instance, change the routine or the context *)
@@ -122,7 +123,7 @@ Proof. vm_compute. repeat split; reflexivity. Qed.
    five configurations (plain / back-off / exit gates / state container / state container with equality mod 2 and
    back-off), and every continuation of at most 4 events after three deeper prefixes (fired retry timer then
    RestartRoutine; a chain of three instances; a running state routine with a blocked WaitExited caller).  A kernel
-   computation, not an unbounded theorem: the unbounded model_satisfies_monitors is NOT proved for this slice. *)
+   computation (kept as a regression check of the definitions); the unbounded theorem is c14_model_satisfies_monitors below. *)
 Theorem c14_monitors_accept_model_bounded :
   sweep_cfg [0; 1; 1; 0; 0]%N 5 = true /\ sweep_cfg [0; 1; 2; 1; 0; 100; 200]%N 5 = true /\
   sweep_cfg [0; 1; 1; 1; 1; 100]%N 5 = true /\ sweep_cfg [1; 1; 1; 0; 0]%N 5 = true /\
@@ -135,3 +136,47 @@ Proof.
         (conj sweep_after_error_and_fired_timer (conj sweep_after_chain_of_three sweep_after_state_running))))))).
 Qed.
 Print Assumptions c14_monitors_accept_model_bounded.
+
+(* The unbounded statement, for EVERY event list and every configuration with at least one exit callback and no zero
+   back-off duration: whenever the schedule-level step function accepts the events, the monitors (the reference machine
+   of C14 - clauses 14/1 no re-run after a recorded success except by RestartRoutine or a new routine/state, 14/2 no
+   re-run after a recorded error except by RestartRoutine, SetContext(restart), a retry callback or a new routine/state,
+   14/3 a due retry has its callback parked, 14/4 WaitExited results, 14/5 exit reports - together with the clauses of
+   C04 and C05) running on the observations the model itself produces report no false clause.  Proof: a relation R
+   between the monitor's state and the model state (Routine/ProofsMonR.v), the invariants of Proofs/ProofsC05/ProofsC14b
+   and ProofsMonInv, one lemma per event kind, induction on the event list. *)
+Theorem c14_model_satisfies_monitors : forall cfg evs, cfg_ok cfg = true ->
+  monitor mon 0 (minit cfg) [] evs (run_obs step_opt (hinit cfg) evs) = [].
+Proof. exact model_satisfies_monitors. Qed.
+Print Assumptions c14_model_satisfies_monitors.
+
+(* hence the whole checker (replay + monitors) accepts every history the model itself produces *)
+Theorem c14_model_run_check_clean : forall cfg evs, cfg_ok cfg = true ->
+  length (run_obs step_opt (hinit cfg) evs) = length evs -> run_check_routine cfg evs (run_obs step_opt (hinit cfg) evs) = [].
+Proof. exact model_run_check_clean. Qed.
+Print Assumptions c14_model_run_check_clean.
+
+(* Both restrictions on the configuration are necessary (neither configuration is generated by the harness):
+   without exit callbacks the reference machine cannot see which exit was recorded, and WaitExited's correct answer is
+   judged false (14/4); a zero back-off duration fires at once in the code but only with the next clock advance in the
+   model, so the model's own trace has no parked callback when the monitor demands one (14/3). *)
+Example c14_cfg_needs_an_exit_callback :
+  let cfg := [0; 1; 0; 0; 0]%N in let evs := [[1; 1; 0]; [2; 1]; [8; 0; 1]; [9; 0; 0]; [10; 0]; [13; 0]; [14; 0]]%N in
+  cfg_ok cfg = false /\ run_check_routine cfg evs (run_obs step_opt (hinit cfg) evs) = [PropFalse 14 4 6].
+Proof. vm_compute. split; reflexivity. Qed.
+Example c14_cfg_needs_nonzero_durations :
+  let cfg := [0; 1; 1; 1; 0; 0]%N in let evs := [[2; 1]; [1; 1; 0]; [8; 0; 1]; [9; 0; 3]; [10; 0]]%N in
+  cfg_ok cfg = false /\ run_check_routine cfg evs (run_obs step_opt (hinit cfg) evs) = [PropFalse 14 3 4].
+Proof. vm_compute. split; reflexivity. Qed.
+
+(* non-vacuity, and the situation that the proof attempt exposed in the monitor: the success exit of a routine that was
+   replaced meanwhile (instance 1, reported to the exit callbacks) resets the container's back-off, so the replacement's
+   first failure is retried after the FIRST scripted interval (300), not the second (50); the reference machine resets
+   its index on every reported success exit.  17 events accepted, no issue. *)
+Example c14_example_replaced_success_resets_backoff :
+  let cfg := [0; 1; 1; 1; 0; 300; 50]%N in
+  let evs := [[1; 1; 0]; [2; 1]; [8; 0; 1]; [9; 0; 2]; [10; 0]; [11; 300]; [12; 0]; [8; 1; 1]; [2; 2]; [9; 1; 0]; [10; 1]; [8; 2; 1];
+              [9; 2; 2]; [10; 2]; [11; 100]; [11; 200]; [12; 0]]%N in
+  cfg_ok cfg = true /\ length (run_obs step_opt (hinit cfg) evs) = 17 /\
+  run_check_routine cfg evs (run_obs step_opt (hinit cfg) evs) = [].
+Proof. vm_compute. repeat split; reflexivity. Qed.
